@@ -44,13 +44,19 @@ fn operand(a: &Act, prog_async: bool, asy: bool, flavor: Flavor, muts: &[bool]) 
     match &a.cap {
         None => core,
         Some(c) => {
-            let mut s = format!("{{ cap({}); ", c.id);
+            // every fifth block operand is a labeled block whose value leaves through `break` (a block
+            // operand like any other)
+            let labeled = c.id % 5 == 0;
+            let mut s = if labeled { format!("'cb: {{ cap({}); ", c.id) } else { format!("{{ cap({}); ", c.id) };
             for b in &c.snaps {
                 if muts.get(*b).copied().unwrap_or(false) {
                     s.push_str(&format!("snapm({}, &mut nb{}); ", c.id, b));
                 } else {
                     s.push_str(&format!("snap({}, &nb{}); ", c.id, b));
                 }
+            }
+            if labeled {
+                s.push_str("break 'cb ");
             }
             s.push_str(&core);
             s.push_str(" }");
@@ -160,6 +166,7 @@ pub fn macro_body(p: &Prog) -> String {
         let init_core = format!("init({})", br.init.id);
         match &br.init.cap {
             None => t.push_str(&init_core),
+            Some(c) if c.id % 5 == 0 => t.push_str(&format!("'cb: {{ cap({}); break 'cb {} }}", c.id, init_core)),
             Some(c) => t.push_str(&format!("{{ cap({}); {} }}", c.id, init_core)),
         }
         // thread-spawning macro with an explicit `lazy_branches(false)`: the branch expression of a step is
